@@ -77,7 +77,12 @@ def k_oracle(shape, spacing):
 
 def same(a, b, rtol=1e-9, atol=1e-13):
     a, b = np.asarray(a, float), np.asarray(b, float)
-    return a.shape == b.shape and bool(np.all((np.abs(a - b) <= atol + rtol * np.maximum(np.abs(a), np.abs(b))) | (np.isnan(a) & np.isnan(b))))
+    if a.shape != b.shape or not np.array_equal(np.isfinite(a), np.isfinite(b)):
+        return False
+    fin = np.isfinite(a)
+    if not np.array_equal(a[~fin], b[~fin], equal_nan=True):
+        return False  # non-finite values only match identical non-finite values
+    return bool(np.all(np.abs(a[fin] - b[fin]) <= atol + rtol * np.maximum(np.abs(a[fin]), np.abs(b[fin]))))
 
 
 class C16(Property):
